@@ -1139,6 +1139,8 @@ fn try_read(fd: RawFd, buf: &mut [u8]) -> nix::Result<Option<usize>> {
     }
     // The socket is readable - but some other process might get there first.
     // We have to set an alarm() in case our read() gets stuck.
+    #[cfg(feature = "verif")]
+    crate::verif::delay("before_token_read");
     let oldh = unsafe { signal::signal(Signal::SIGALRM, SigHandler::Handler(timeout_handler)) }?;
     const INTERVAL_VALUE: IntervalTimerValue = IntervalTimerValue {
         interval: Duration::from_millis(10),
